@@ -34,6 +34,9 @@ func scanShiftMask(body ast.Node, info *types.Info, onIdent func(e ast.Expr) boo
 		if !isK {
 			return true
 		}
+		if _, lhsConst := constOf(info, be.X); lhsConst {
+			return true // constant expression (1 << iota ...), not an operand computation
+		}
 		switch be.Op {
 		case token.SHL, token.SHR:
 			if onIdent(be.X) {
@@ -68,19 +71,10 @@ func ruleA1(c *Ctx) {
 		c.anchorFail("fcomp.args / insn.stackeffect / interpreter switch / resolver.expr not found")
 		return
 	}
-	isName := func(names ...string) func(ast.Expr) bool {
-		return func(e ast.Expr) bool {
-			s := types.ExprString(e)
-			for _, n := range names {
-				if s == n {
-					return true
-				}
-			}
-			return false
-		}
-	}
+	// operands are not matched by name: the functions examined contain no other shifts or masks by constants
+	anyOperand := func(ast.Expr) bool { return true }
 	// compiler: p<<K | n
-	csm := scanShiftMask(args.Body, cpk.TypesInfo, isName("p"))
+	csm := scanShiftMask(args.Body, cpk.TypesInfo, anyOperand)
 	key := "compiler: CALL operand packing"
 	if len(csm.shifts) != 1 {
 		c.viol(key, c.P.Pos(args.Pos()), "cannot find the single `p<<S | n` packing of the CALL operand in fcomp.args")
@@ -117,7 +111,7 @@ func ruleA1(c *Ctx) {
 	if callArm == nil {
 		c.viol(key, c.P.Pos(sw.Pos()), "no CALL arm in the interpreter")
 	} else {
-		ism := scanShiftMask(callArm, spk.TypesInfo, isName("arg"))
+		ism := scanShiftMask(callArm, spk.TypesInfo, anyOperand)
 		if len(ism.shifts) == 1 && ism.shifts[0] == S && len(ism.masks) == 1 && ism.masks[0] == want {
 			c.ok(key, c.P.Pos(ism.pos), fmt.Sprintf("arg >> %d and arg & %#x", S, want))
 		} else {
@@ -126,7 +120,7 @@ func ruleA1(c *Ctx) {
 	}
 	// stackeffect
 	key = "insn.stackeffect: CALL operand unpacking"
-	ssm := scanShiftMask(se.Body, cpk.TypesInfo, isName("insn.arg"))
+	ssm := scanShiftMask(se.Body, cpk.TypesInfo, anyOperand)
 	if len(ssm.shifts) == 1 && ssm.shifts[0] == S && len(ssm.masks) == 1 && ssm.masks[0] == want {
 		c.ok(key, c.P.Pos(ssm.pos), fmt.Sprintf("insn.arg >> %d and insn.arg & %#x", S, want))
 	} else {
@@ -294,13 +288,60 @@ func ruleA2(c *Ctx) {
 	} else {
 		c.viol(key, c.P.Pos(args.Pos()), fmt.Sprintf("callmode bits are %v; expected STAR:1 STARSTAR:2", bits))
 	}
-	// push order
+	// push order: the variables that receive the operand of a `*x` / `**x` argument (whatever they
+	// are called), in the order in which they are compiled
+	kindOf := map[string]string{}
+	stack = nil
+	ast.Inspect(args.Body, func(n ast.Node) bool {
+		if n == nil {
+			stack = stack[:len(stack)-1]
+			return true
+		}
+		stack = append(stack, n)
+		as, ok := n.(*ast.AssignStmt)
+		if !ok || as.Tok != token.ASSIGN || len(as.Lhs) != 1 {
+			return true
+		}
+		id, ok := as.Lhs[0].(*ast.Ident)
+		if !ok {
+			return true
+		}
+		for i := len(stack) - 2; i >= 0; i-- {
+			var exprs []ast.Expr
+			switch x := stack[i].(type) {
+			case *ast.IfStmt:
+				exprs = []ast.Expr{x.Cond}
+			case *ast.CaseClause:
+				exprs = x.List
+			default:
+				continue
+			}
+			name := ""
+			for _, e := range exprs {
+				ast.Inspect(e, func(m ast.Node) bool {
+					if sel, ok := m.(*ast.SelectorExpr); ok && (sel.Sel.Name == "STAR" || sel.Sel.Name == "STARSTAR") {
+						name = sel.Sel.Name
+					}
+					return true
+				})
+			}
+			if name == "STAR" {
+				kindOf[id.Name] = "varargs"
+			} else if name == "STARSTAR" {
+				kindOf[id.Name] = "kwargs"
+			}
+			if name != "" {
+				break
+			}
+		}
+		return true
+	})
 	var order []string
 	ast.Inspect(args.Body, func(n ast.Node) bool {
 		if call, ok := n.(*ast.CallExpr); ok {
 			if sel, ok := call.Fun.(*ast.SelectorExpr); ok && sel.Sel.Name == "expr" && len(call.Args) == 1 {
-				if id, ok := call.Args[0].(*ast.Ident); ok && (id.Name == "varargs" || id.Name == "kwargs") {
-					order = append(order, id.Name)
+				if id, ok := call.Args[0].(*ast.Ident); ok && kindOf[id.Name] != "" {
+					order = append(order, kindOf[id.Name])
 				}
 			}
 		}
@@ -331,6 +372,37 @@ func ruleA2(c *Ctx) {
 				}
 			}
 			for _, st := range cc.Body {
+				// switch op { case CALL_KW, CALL_VAR_KW: kwargs = stack[sp-1]; sp-- }
+				if ss, ok := st.(*ast.SwitchStmt); ok && ss.Tag != nil {
+					for _, cl2 := range ss.Body.List {
+						c2 := cl2.(*ast.CaseClause)
+						mentions := map[string]bool{}
+						for _, e := range c2.List {
+							if sel, ok := e.(*ast.SelectorExpr); ok {
+								mentions[sel.Sel.Name] = true
+							}
+						}
+						popsSp := false
+						for _, b := range c2.Body {
+							ast.Inspect(b, func(n ast.Node) bool {
+								if inc, ok := n.(*ast.IncDecStmt); ok && inc.Tok == token.DEC {
+									popsSp = true
+								}
+								return true
+							})
+						}
+						if !popsSp {
+							continue
+						}
+						switch {
+						case mentions["CALL_KW"] && mentions["CALL_VAR_KW"] && !mentions["CALL_VAR"]:
+							pops = append(pops, "kwargs")
+						case mentions["CALL_VAR"] && mentions["CALL_VAR_KW"] && !mentions["CALL_KW"]:
+							pops = append(pops, "varargs")
+						}
+					}
+					continue
+				}
 				ifs, ok := st.(*ast.IfStmt)
 				if !ok {
 					continue
